@@ -67,9 +67,10 @@ const (
 	v01HoldWritten   // until the round's proxy ops were written (cap 300 ms)
 	v01HoldAfterAuth // until another auth op's verdict was returned (cap 40 ms): generated completion order
 	v01HoldPastClose // until the op's own connection was closed (cap 5 s): the verdict arrives after the close
+	v01HoldTwin      // until the twin request (same credential string and CC-RX, ANOTHER connection) was handed to its client (cap 300 ms)
 )
 
-var v01HoldNames = []string{"", "written", "after-auth", "past-close"}
+var v01HoldNames = []string{"", "written", "after-auth", "past-close", "twin-in-flight"}
 
 type v01Op struct {
 	Kind  int
@@ -93,6 +94,7 @@ type v01Op struct {
 	pairOf     *v01Op
 	ReuseOf    *v01Op // the credential string is, verbatim, the one of this earlier accepted op (usually of another connection)
 	BadWhy     string // AuthBad: why the authenticator rejects it
+	After      *v01Op // twin: this request is sent only once After's call is inside the authenticator (cap 300 ms), and releases it
 	// H
 	HTTP *v01HTTPReq
 	// T
@@ -140,6 +142,9 @@ func (o *v01Op) String() string {
 				s += "+next-round-open"
 			}
 			s += fmt.Sprintf("+%dms", o.HoldMs)
+		}
+		if o.After != nil {
+			s += " sent-while-" + o.After.Label + "-is-inside-the-authenticator"
 		}
 		if o.Detached {
 			s += " detached"
@@ -691,7 +696,58 @@ func v01DrawCase(rt *rapid.T) *v01Case {
 			}
 		}
 	}
-	_ = n
+	// Twin shape: the SAME credential string with the same CC-RX is in flight on two connections
+	// at once; the authenticator accepts it for one connection and rejects everything from the
+	// other one's address. Either request may be the one that is parked inside the authenticator
+	// while the other arrives.
+	if rapid.IntRange(0, 9).Draw(rt, "twin") < 6 {
+		type pair struct {
+			x *v01Op
+			b int
+		}
+		var ps []pair
+		for r, ops := range c.Rounds {
+			for _, x := range ops {
+				if x.Kind != v01KAuthGood || x.Token == "\x00" || x.ReuseOf != nil || x.pairOf != nil || r != c.AcceptRnd[x.Conn] ||
+					x.Hold == v01HoldPastClose || c.ParkClose[x.Conn] == r {
+					continue
+				}
+				targeted := false
+				for _, y := range ops {
+					targeted = targeted || y.HoldTarget == x.Label || (y != x && y.Conn == x.Conn && y.Kind == v01KAuthGood)
+				}
+				if targeted {
+					continue
+				}
+				for b, p := range c.Conns {
+					if b != x.Conn && !p.Accept && p.Open <= r && r < p.Close && c.ParkClose[b] != r && !usedTok[fmt.Sprintf("%d|%s", b, x.Token)] {
+						ps = append(ps, pair{x, b})
+					}
+				}
+			}
+		}
+		if len(ps) > 0 {
+			pr := rapid.SampledFrom(ps).Draw(rt, "twin/pair")
+			x := pr.x
+			y := &v01Op{Round: x.Round, Conn: pr.b, Kind: v01KAuthBad, N: n, ReuseOf: x, Token: x.Token, CCRX: x.CCRX, Pad: x.Pad,
+				BadWhy: "in flight on another connection at the same time, authenticator rejects this connection"}
+			y.Label = fmt.Sprintf("c%d-op%d", y.Conn, y.N)
+			n++
+			c.DenyConn[pr.b] = true
+			usedTok[fmt.Sprintf("%d|%s", y.Conn, y.Token)] = true
+			lead, follow := x, y
+			if rapid.Bool().Draw(rt, "twin/refusedfirst") {
+				lead, follow = y, x
+			}
+			lead.Hold, lead.Slow, lead.HoldTarget, lead.HoldLate = v01HoldTwin, true, "", false
+			lead.HoldMs = rapid.IntRange(5, 15).Draw(rt, "twin/hold")
+			follow.After = lead
+			if follow.Hold == v01HoldAfterAuth {
+				follow.Hold, follow.Slow = v01HoldNone, false
+			}
+			c.Rounds[x.Round] = append(c.Rounds[x.Round], y)
+		}
+	}
 	// While a call is parked across the close, a correct server holds the connection's auth
 	// lock: every other auth-shaped request of that connection in that round can only finish
 	// when the connection is closed, so the round must not wait for any of its HTTP ops.
@@ -751,6 +807,8 @@ type v01Run struct {
 
 	evMu        sync.Mutex
 	authDone    map[string]chan struct{} // label -> closed when that auth op's verdict was returned
+	entered     map[string]chan struct{} // label -> closed when that auth op's call entered the authenticator
+	twinSent    map[string]chan struct{} // label of a parked twin leader -> closed when the follower is being sent
 	connClosed  []chan struct{}          // closed when the client side of the connection was closed
 	roundOpened []chan struct{}          // closed when the connections of that round are open
 	detached    [][]chan struct{}        // per connection: completion of ops the rounds did not wait for
@@ -797,6 +855,12 @@ func v01Execute(c *v01Case) (_ *v01Run, envErr string) {
 			run.authDone[l] = make(chan struct{})
 		}
 	}
+	run.entered = map[string]chan struct{}{}
+	run.twinSent = map[string]chan struct{}{}
+	for l := range run.authDone {
+		run.entered[l] = make(chan struct{})
+		run.twinSent[l] = make(chan struct{})
+	}
 	run.connClosed = make([]chan struct{}, c.NConn)
 	run.detached = make([][]chan struct{}, c.NConn)
 	for i := range run.connClosed {
@@ -831,10 +895,20 @@ func v01Execute(c *v01Case) (_ *v01Run, envErr string) {
 	}
 	hook := func(conn int, token string) {
 		o := byConnTok[fmt.Sprintf("%d|%s", conn, token)]
-		if o == nil || o.Hold == v01HoldNone {
+		if o == nil {
+			return
+		}
+		if ch := run.entered[o.Label]; ch != nil {
+			run.evMu.Lock()
+			v01CloseOnce(ch)
+			run.evMu.Unlock()
+		}
+		if o.Hold == v01HoldNone {
 			return
 		}
 		switch o.Hold {
+		case v01HoldTwin:
+			v01WaitCap(run.twinSent[o.Label], 300*time.Millisecond)
 		case v01HoldWritten:
 			v01WaitCap(run.gates[o.Round], 300*time.Millisecond)
 		case v01HoldAfterAuth:
@@ -1061,6 +1135,13 @@ func (run *v01Run) doOp(res *v01Res) {
 		req := v01AuthReq(o.Label, o.Token, o.CCRX, o.Pad)
 		if o.Token == "\x00" {
 			req.Header.Del("Hysteria-Auth")
+		}
+		if o.After != nil {
+			// twin follower: goes out while the leader's call is inside the authenticator
+			v01WaitCap(run.entered[o.After.Label], 300*time.Millisecond)
+			run.evMu.Lock()
+			v01CloseOnce(run.twinSent[o.After.Label])
+			run.evMu.Unlock()
 		}
 		res.HTTP = cl.do(req)
 		res.Err = res.HTTP.Err
@@ -1411,6 +1492,14 @@ func (c *v01Case) classify() (nt bool, classes []string) {
 					}
 				}
 			}
+			if o.After != nil {
+				if o.Kind == v01KAuthBad {
+					set["twin-in-flight:accepted-conn-parked,refused-conn-joins"] = true
+				} else {
+					set["twin-in-flight:refused-conn-parked,accepted-conn-joins"] = true
+				}
+				set["twin-in-flight"] = true
+			}
 			if o.BadWhy == "revoked" || o.BadWhy == "not granted yet" {
 				set["authbad="+o.BadWhy] = true
 			}
@@ -1513,7 +1602,7 @@ func (c *v01Case) classify() (nt bool, classes []string) {
 	nt = (accProxy && neverProxy) || reauthThenProxy || preProxy || (neverProxy && set["held-authenticator"]) ||
 		set["conn-after-closed-accepted:never-accepted+proxy"] || set["conn-after-closed-accepted:never-accepted+authbad"] ||
 		set["conn-after-closed-accepted:authbad-before-own-accept"] || set["concurrent-auths-ordered"] || set["hold=past-close"] ||
-		set["verbatim-reuse:on-never-accepted-conn"] || set["verbatim-reuse:rejected-after-revoke"]
+		set["verbatim-reuse:on-never-accepted-conn"] || set["verbatim-reuse:rejected-after-revoke"] || set["twin-in-flight"]
 	_ = afterClosedAccepted
 	for k := range set {
 		classes = append(classes, k)
